@@ -20,11 +20,12 @@ from translator.pyexpr import TranslateError
 
 HERE = os.path.dirname(os.path.dirname(os.path.abspath(__file__)))
 
-THEOREM_FILES = ["C17_splits.v", "C17_proj.v", "C17_scale.v", "C17_assembly.v", "C17_degenerate3d.v", "C17_miehe2d.v",
+THEOREM_FILES = ["C17_splits.v", "C17_proj.v", "C17_assembly3d.v", "C17_scale.v", "C17_assembly.v", "C17_degenerate3d.v", "C17_miehe2d.v",
+                 "C17_generic3d.v",
                  "C17_history.v", "C17_history_damage.v"]
 # compile-order dependencies between the theorem files (all need Gen_Splits.v)
 DEPS = {"C17_scale.v": ["C17_proj.v"], "C17_assembly.v": ["C17_scale.v"], "C17_degenerate3d.v": ["C17_proj.v"],
-        "C17_miehe2d.v": ["C17_assembly.v", "C17_splits.v"]}
+        "C17_miehe2d.v": ["C17_assembly.v", "C17_splits.v"], "C17_generic3d.v": ["C17_proj.v", "C17_assembly3d.v"]}
 # which concrete-failure key prefixes "explain" a broken theorem file
 RELATED = {
     "C17_splits.v": ("partition:", "law:"),
@@ -32,6 +33,8 @@ RELATED = {
     "C17_scale.v": ("scale-invariance:",),
     "C17_assembly.v": ("proj:2d", "eig:2d", "scale-invariance:2d", "nonfinite:2d"),
     "C17_miehe2d.v": ("proj:2d", "partition:2d", "scale-invariance:2d", "eig:2d"),
+    "C17_assembly3d.v": ("proj:3d", "scale-invariance:3d", "nonfinite:3d"),
+    "C17_generic3d.v": ("proj:3d", "eig:3d", "scale-invariance:3d", "nonfinite:3d"),
     "C17_degenerate3d.v": ("eig:3d", "proj:3d", "nonfinite:3d", "scale-invariance:3d"),
     "C17_history.v": ("history-", "damage-decreases:BoundConstrain", "damage-without-load", "damage-imposed-lost:BoundConstrain"),
     "C17_history_damage.v": ("damage-decreases:HistoryDamage", "damage-not-stored:HistoryDamage", "damage-imposed-lost:HistoryDamage"),
@@ -163,6 +166,13 @@ def run(ctx):
     ctx.obligation("static coq libraries (EFLib.C17_MatAlg, C17_Mat3)", ok, log[-800:] if not ok else "")
     broken = {}     # file -> log
     gen_ok = False
+    from concurrent.futures import ThreadPoolExecutor, wait, FIRST_COMPLETED
+    pool = ThreadPoolExecutor(max_workers=3)
+    # the correspondence runs do not depend on the proofs: they share the pool with the coqc jobs
+    inp = json.dumps({"seed": ctx.rng.randrange(1 << 30), "tier": ctx.tier})
+    inp2 = json.dumps({"seed": ctx.rng.randrange(1 << 30), "tier": ctx.tier})
+    fut_splits = pool.submit(ctx.impl_python, os.path.join(HERE, "corr", "C17_splits.py"), (), 900, inp)
+    fut_stagger = pool.submit(ctx.impl_python, os.path.join(HERE, "corr", "C17_stagger.py"), (), 900, inp2)
     # ---- 1. translate ----------------------------------------------------------------
     try:
         res = T.translate(ctx.repo)
@@ -186,10 +196,10 @@ def run(ctx):
             ctx.copy_props(*["C17/" + f for f in THEOREM_FILES])
             # independent files are compiled concurrently (at most 3 coqc at a time), dependents after
             # their prerequisites; a file whose prerequisite broke is skipped, not reported separately
-            from concurrent.futures import ThreadPoolExecutor, wait, FIRST_COMPLETED
             done, skipped, running = {}, set(), {}
             todo = list(THEOREM_FILES)
-            with ThreadPoolExecutor(max_workers=3) as ex:
+            ex = pool
+            if True:
                 while todo or running:
                     for f in list(todo):
                         deps = DEPS.get(f, [])
@@ -214,8 +224,7 @@ def run(ctx):
     ctx.log("theorem files broken:", sorted(broken) or "none")
     # ---- 3. correspondence / search -----------------------------------------------------
     keys = []
-    inp = json.dumps({"seed": ctx.rng.randrange(1 << 30), "tier": ctx.tier})
-    rc, out, err = ctx.impl_python(os.path.join(HERE, "corr", "C17_splits.py"), input=inp, timeout=900)
+    rc, out, err = fut_splits.result()
     if rc != 0:
         ctx.obligation("correspondence: splits harness ran", False, (out + err)[-1500:])
         ctx.violation("harness:splits", "corr/C17_splits.py failed to run: " + (err.strip().splitlines() or ["?"])[-1],
@@ -251,8 +260,8 @@ def run(ctx):
                           {"replay_py": rp, "input": {k: d.get(k) for k in ("matname", "split", "regu", "classes", "gp", "eps_elem", "extra")}},
                           found_input=d.get("kind") not in ("hook",))
         ctx.sample({"splits_stats": {k: st[k] for k in ("cases", "models", "max_partition_err")}})
-    inp2 = json.dumps({"seed": ctx.rng.randrange(1 << 30), "tier": ctx.tier})
-    rc, out, err = ctx.impl_python(os.path.join(HERE, "corr", "C17_stagger.py"), input=inp2, timeout=900)
+    rc, out, err = fut_stagger.result()
+    pool.shutdown()
     if rc != 0:
         ctx.obligation("correspondence: staggered histories ran", False, (out + err)[-1500:])
         ctx.violation("harness:stagger", "corr/C17_stagger.py failed to run: " + (err.strip().splitlines() or ["?"])[-1],
@@ -294,10 +303,11 @@ def run(ctx):
                       {"replay_py": REPLAY_COQ % dict(file=f, log=lg[-1200:]), "obligation": f}, found_input=False)
     ctx.assumptions += [
         "Theorems are over exact reals; floating-point behaviour of the closed-form eigen routines is covered by the correspondence runs only.",
-        "Scale invariance is proved for Rp/Rm, the 2-D eigenvalues/projectors and the assembled 2-D projP, the inputs of the 3-D case selection (g_neq_0 test, Lode argument) and the Sylvester formulas; invariance of the assembled 3-D projP is sampled over 14 decades of magnitude with exact power-of-two scalings.",
+        "Scale invariance is proved for Rp/Rm, the 2-D eigenvalues/projectors and the assembled 2-D projP, the inputs of the 3-D case selection (g_neq_0 test, Lode argument), the Sylvester formulas and the assembled 3-D projP given a spectral resolution (generic branch); on the degenerate 3-D branches it is sampled over 14 decades of magnitude with exact power-of-two scalings.",
+        "3-D assembly theorems (C17_assembly3d.v) hold for any rank-one orthogonal spectral resolution; they are instantiated on the generic branch only (C17_generic3d.v), given that the three values are distinct roots of the characteristic polynomial. The sums over the stacked axis (diag_sum, G_sum) and the moveaxis/None broadcasting are checked by statement templates, not interpreted.",
         "2-D assembly theorem: the routine receives the Kelvin-Mandel packing of A (Project_matrix_to_vector is translated; its inverse Project_vector_to_matrix is assumed to be the inverse packing, checked by the eigen correspondence).",
         "3-D degenerate branches: proved given the double-root Vieta relations; which branch the floating-point theta comparison selects, and the Frobenius normalisation of M1, M3, are not modelled.",
-        "3-D: the projector formulas of all four branches are proved to be spectral resolutions given the characteristic-polynomial relations (proj3d_distinct_partial, proj3d_case2/3/4); the arccos root formula (that the returned values ARE the roots), the branch selection and the 3-D assembly of projP are checked by correspondence, not proved.",
+        "3-D: the projector formulas of all four branches are proved to be spectral resolutions given the characteristic-polynomial relations (proj3d_distinct_partial, proj3d_case2/3/4); the arccos root formula (that the returned values ARE the roots), the branch selection, and the 3-D assembly of projP on the repeated-eigenvalue branches (where it is wrong: finding proj:3d:two_eq) are checked by correspondence, not proved.",
         "Hypotheses of the partition theorems about the material law (C = lamb IxI + 2 mu I, bulk, C^T S C = C, inv_sqrtC sqrtC = I, Stress-split compliance coefficients) are checked numerically on the implementation at 1e-10.",
         "Det/Trace of 2x2 and Project_vector_to_matrix are modelled by hand (checked by the eigen correspondence).",
         "BoundConstrain: scipy.optimize.lsq_linear is trusted to return a point within its bounds; the theorem quantifies over every admissible point.",
